@@ -70,6 +70,8 @@ class Check:
             "states": int(res.get("states", 0)),
             "transitions": int(res.get("transitions", res.get("generated", 0))),
             "traces": traces, "wall_s": round(res.get("wall", 0.0), 2)}
+        if res.get("actions"):
+            self.cov["parts"][name]["action_counts"] = dict(res["actions"])
 
     def count(self, n: int = 1) -> None:
         self.cov["evaluations"] += n
